@@ -14,15 +14,21 @@ type executionContext struct {
 	parameters Parameters
 }
 
-func (e *executionContext) AppendLog(ctx context.Context, log *ledger.Log) (*ledger.ChainedLog, chan struct{}, error) {
+// AppendLog chains and enqueues the log. tx, when not nil, is the transaction the
+// log carries: it receives its id at that moment (a dry run reports the id the
+// write would get, without consuming it).
+func (e *executionContext) AppendLog(ctx context.Context, log *ledger.Log, tx *ledger.Transaction) (*ledger.ChainedLog, chan struct{}, error) {
 	if e.parameters.DryRun {
+		if tx != nil {
+			tx.ID = e.commander.nextTXID()
+		}
 		ret := make(chan struct{})
 		close(ret)
 		return log.ChainLog(nil), ret, nil
 	}
 
 	done := make(chan struct{})
-	chainedLog := e.commander.chainLog(log, func() {
+	chainedLog := e.commander.chainLog(log, tx, func() {
 		close(done)
 	})
 	logging.FromContext(ctx).WithFields(map[string]any{
